@@ -883,8 +883,11 @@ def run_case(rng, tier, res):
         judge_emitter(res, "emit%d" % i, kind, n, wc, t_)
     if use_xcvr:
         judge_xcvr(res, tr, xs, deferred)
-    for mech, detail in deferred[:4]:
-        res.violation(mech, detail)
+    shown = {}
+    for mech, detail in deferred:           # at most two per known mechanism, after everything else
+        shown[mech] = shown.get(mech, 0) + 1
+        if shown[mech] <= 2:
+            res.violation(mech, detail)
     ev, bins = res.events, res.bins
     res.nontrivial = bool(ev.get("det_reports_demanded") and ev.get("emit_bursts_complete") and
                           (bins.get("ep_corrupt_data_bit") or bins.get("ep_corrupt_ctrl_bit") or bins.get("ep_truncated")))
